@@ -5,7 +5,7 @@ from mirsym.values import *
 from mirsym.explore import Panic
 from mirsym import models_typst as T
 from mirsym.models_std import STD, Str, sym_str
-from . import libskel, kern, comments, lists, flows, markup, tables, mathargs, chains
+from . import libskel, kern, comments, lists, flows, markup, tables, mathargs, chains, conserve, deep, adjacency
 from .common import *
 
 EXPLANATION = (
@@ -16,7 +16,9 @@ EXPLANATION = (
     "strip_trailing_whitespace, has_linebreak, count_linebreaks (strings <= N code points), comment / block_comment / align_multiline / "
     "align_multiline_simple / get_follow_leading (comments of <= M interior code points), convert_space / convert_parbreak, "
     "ListStylist and convert_flow_like_iter over child sequences <= K, optional_paren, convert_table for every 64-bit column count "
-    "(0 included) and up to 3/4 cells, convert_args_in_math and the dot-chain converters over their child sequences. Panics and hangs inside the parser, the pretty "
+    "(0 included) and up to 3/4 cells, convert_args_in_math and the dot-chain converters over their child sequences. (3) The whole printer, nothing "
+    "opaque: convert_expr on node shapes taken from real parses (15 / 400 per kind, up to 16 / 40 nodes) and AttrStore::new + convert_markup on a list of "
+    "small documents, with context, indent unit, width and the blanks of whitespace tokens symbolic: no path ends in a panic. Panics and hangs inside the parser, the pretty "
     "renderer and the tree-walking code not listed are outside the claim, as is 'bounded time'.")
 
 
@@ -72,5 +74,12 @@ def run(S):
     chains.report(S, 'C05', f7)
     f5 = tables.explore(S, 3 if S.tier == 'quick' else 4)
     tables.report(S, 'C05', f5)
+    # every converter real on shapes from real parses and on small whole documents: no path panics, for any context / configuration
+    f8, cov8 = conserve.explore(S, want=('C05',), per_kind=15 if S.tier == 'quick' else 400, max_nodes=16 if S.tier == 'quick' else 40, deep=True)
+    conserve.report(S, 'C05', f8)
+    f9, cov9 = deep.explore(S, want=('C05',))
+    deep.report(S, 'C05', f9)
+    f10 = adjacency.explore_embedded(S, want=('C05',))
+    adjacency.report(S, 'C05', [(l, i) for l, i in f10 if l.startswith('C05:')])
     S.assumptions += comments.ASSUMPTIONS + lists.ASSUMPTIONS
     return S.finish(level='other', explanation=EXPLANATION, trusted=['mirsym encoder', 'std / typst-syntax / pretty contracts'])
